@@ -1,6 +1,7 @@
 (* C02 - notify delivers every payload intact.  The slot formula is GENERATED from its four copies in sc_notify.c. *)
 From Coq Require Import ZArith List Bool Permutation.
 From ScV Require Import Base.CInt Gen.NotifyC01 C02.SlotProofs C02.PayloadModel C01.MergeModel C01.MergeProofs C01.MergeCorr Gen.Consts MPI.Prog C01.NotifyProgs C01.NotifyProgProofs C01.NaryArith C01.NaryDelivery C01.RecordOps C01.BinaryRound C01.NaryRound C01.NaryCore C01.PexRound C01.NbxProofs C01.RangesRound C01.SupersetProofs C02.CensusvProofs.
+From ScV Require C02.ReusedOutputs.
 From ScV Require C15.RangesModel.
 Import ListNotations.
 Local Open Scope Z_scope.
@@ -327,3 +328,43 @@ Theorem C02_ranges_every_schedule : forall P (R : Z -> list Z) (pay : Z -> Z -> 
                     (forall a b t, Sem.ch s a b t = [])).
 Proof. intros P R pay sz nr HP Hnr HR. exact (RangesSched.ranges_every_schedule P R true pay sz nr HP Hnr HR). Qed.
 Print Assumptions C02_ranges_every_schedule.
+
+(* ---- out_payload arrays that are not empty on entry (recorded findings reused-out-payload:nbx-unsorted / nary-no-senders) ----
+   guard: with output arrays that are empty on entry the two places return what was received (this is the situation of the
+   program theorems above); without the guard: refuted, the witnesses are what the replayed harness cases show *)
+Theorem C02_reused_out_payload_guard : forall junk got,
+  ReusedOutputs.nbx_unsorted_out junk [] got = (map fst got, map snd got) /\ ReusedOutputs.nary_out [] got = (map fst got, map snd got).
+Proof. exact ReusedOutputs.reused_guard. Qed.
+Print Assumptions C02_reused_out_payload_guard.
+Theorem C02_nbx_reused_out_payload_refuted : exists junk stale got,
+  stale <> [] /\ nth 0 (snd (ReusedOutputs.nbx_unsorted_out junk stale got)) [] <> nth 0 (map snd got) [] /\
+  length (fst (ReusedOutputs.nbx_unsorted_out junk stale got)) <> length got.
+Proof. exact ReusedOutputs.nbx_reused_out_payload_refuted. Qed.
+Print Assumptions C02_nbx_reused_out_payload_refuted.
+Theorem C02_nary_reused_out_payload_refuted : exists stale, stale <> [] /\ snd (ReusedOutputs.nary_out stale []) <> [].
+Proof. exact ReusedOutputs.nary_reused_out_payload_refuted. Qed.
+Print Assumptions C02_nary_reused_out_payload_refuted.
+
+(* NBX WITH ONE ITEM PER RECEIVER in the semantics with polls (cf. C01_nbx_every_schedule_partial; PARTIAL in the same sense: final states and
+   "no rank is ever blocked" and "some continuation reaches a final state or the model's fuel mark" are proved for every schedule; fair termination is missing): in every
+   final state rank r has returned result o (items of o) with pay q r at the position of sender q, o a permutation of the transposed list
+   (equal to it if sorted); every channel is empty and every barrier posted *)
+From ScV Require MPI.SemPoll C01.NbxSched.
+Theorem C02_nbx_every_schedule_partial : forall P (R : Z -> list Z) (pay : Z -> Z -> payload) (sorted : bool) (fuel : nat),
+  (forall f, 0 <= f < P -> ssorted (fun x => x) (R f) /\ forall t, In t (R f) -> 0 <= t < P) ->
+  forall n s, SemPoll.run_p P NbxSched.nbx_poll NbxSched.nbx_stags n (NbxSched.nbx_sys P R true pay sorted fuel) s ->
+    (SemPoll.pfinal s ->
+       (forall r, 0 <= r < P -> exists o, Permutation o (transpose P R r) /\ (sorted = true -> o = transpose P R r) /\
+                                         SemPoll.ppr s r = Ret (result o (map (fun q => pay q r) o))) /\
+       (forall a b t, SemPoll.pch s a b t = []) /\ (forall r, 0 <= r < P -> SemPoll.pbar s r = true)) /\
+    (forall r, 0 <= r < P -> (exists o, SemPoll.ppr s r = Ret o) \/ NbxSched.at_fuel_mark s r \/
+                             exists s', SemPoll.step_p P NbxSched.nbx_poll NbxSched.nbx_stags s r s') /\
+    (exists m s', SemPoll.run_p P NbxSched.nbx_poll NbxSched.nbx_stags m s s' /\
+                  (SemPoll.pfinal s' \/ exists r, 0 <= r < P /\ NbxSched.at_fuel_mark s' r)).
+Proof.
+  intros P R pay sorted fuel HR n s Hr. split; [|split].
+  - exact (NbxSched.nbx_final P R true pay sorted fuel HR n s Hr).
+  - exact (NbxSched.nbx_never_blocked P R true pay sorted fuel HR n s Hr).
+  - exact (NbxSched.nbx_no_endless_polling P R true pay sorted fuel HR n s Hr).
+Qed.
+Print Assumptions C02_nbx_every_schedule_partial.
